@@ -26,12 +26,16 @@ fn rename_tokens(ts: proc_macro2::TokenStream, locals: &[String]) -> proc_macro2
     use proc_macro2::{Group, Ident, TokenTree};
     let mut out = vec![];
     let mut prev_dot = false;
-    for t in ts {
+    let toks: Vec<TokenTree> = ts.into_iter().collect();
+    for (idx, t) in toks.iter().cloned().enumerate() {
+        // `name :` (a single colon) is a field label of a struct literal, not a use of the local
+        let is_label = matches!(toks.get(idx + 1), Some(TokenTree::Punct(p)) if p.as_char() == ':' && p.spacing() == proc_macro2::Spacing::Alone)
+            && !matches!(toks.get(idx.wrapping_sub(1)), Some(TokenTree::Punct(p)) if p.as_char() == ':');
         match t {
             TokenTree::Ident(i) => {
                 let n = i.to_string();
                 match locals.iter().position(|l| *l == n) {
-                    Some(k) if !prev_dot => out.push(TokenTree::Ident(Ident::new(&format!("_v{}", k + 1), i.span()))),
+                    Some(k) if !prev_dot && !is_label => out.push(TokenTree::Ident(Ident::new(&format!("_v{}", k + 1), i.span()))),
                     _ => out.push(TokenTree::Ident(i)),
                 }
                 prev_dot = false;
@@ -164,10 +168,12 @@ pub fn translate(repo: &Path) -> String {
                     for it in &im.items {
                         if let ImplItem::Fn(f) = it {
                             if f.sig.ident == "decode" {
+                                // let-normal form first (canon.rs): hoisted sub-expressions and renamed locals do not show
+                                let nb = crate::canon::normalize_block(&f.block);
                                 let mut loc = Locals(vec![]);
-                                loc.visit_block(&f.block);
+                                loc.visit_block(&nb);
                                 let mut v = BufOps { ops: vec![], locals: loc.0 };
-                                v.visit_block(&f.block);
+                                v.visit_block(&nb);
                                 ops = v.ops;
                             } else {
                                 problems.push(format!("Decoder for ImapCodec overrides {}", f.sig.ident));
